@@ -191,6 +191,9 @@ static void run_typed(case_t const& c, controller* ctl)
     auto* isw = new std::vector<int>(total, 0);
     auto* mtx = new std::optional<Mutex>();
     auto* ext = new long(0);    // the externally managed resource of a void mutex
+    // the mutex object accesses are requested from: the original, or the newest move-constructed one (op mvmtx); moved-from
+    // objects stay alive until the end of the case (a moved-from mutex must not hold on to anything)
+    auto* cur = new Mutex*(nullptr);
     auto* nreq = new std::size_t(0);
 
     auto requested = [=](std::size_t a) { return (*isw)[a] ? (*wsl)[a].requested : (*rsl)[a].requested; };
@@ -211,6 +214,7 @@ static void run_typed(case_t const& c, controller* ctl)
                     std::shared_ptr<void> tok(static_cast<void*>(ext), [](void*) { nt("vfree", nullptr, 0, 0); });
                     mtx->emplace(val{0, std::move(tok)}, leak_alloc<int>{});
                 }
+                *cur = &**mtx;
             }
             for (auto const& op : c.threads[i])
             {
@@ -225,24 +229,32 @@ static void run_typed(case_t const& c, controller* ctl)
                     nt("req", nullptr, a, w);
                     if (w)
                     {
-                        auto s = (*mtx)->readwrite();
+                        auto s = (*cur)->readwrite();
                         nt("reqd", static_cast<base*>(s.state.get()), a, w);
                         (*ws)[a].emplace(std::move(s));
                         (*wsl)[a].requested = true;
                     }
                     else
                     {
-                        auto s = (*mtx)->read();
+                        auto s = (*cur)->read();
                         nt("reqd", static_cast<base*>(s.state.get()), a, w);
                         (*rs)[a].emplace(std::move(s));
                         (*rsl)[a].requested = true;
                     }
                 }
+                else if (op.name == "mvmtx")
+                {
+                    // owner: move-construct a new mutex from the current one; the moved-from object stays alive
+                    pt("op", nullptr, 0, 0);
+                    *cur = new Mutex(std::move(**cur));
+                }
                 else if (op.name == "destroy")
                 {
                     pt("op", nullptr, 0, 0);
                     nt("destroy", nullptr, 0, 0);
-                    mtx->reset();
+                    if (*cur == &**mtx) mtx->reset();
+                    else delete *cur;    // the live mutex is a moved-to object; the moved-from ones stay alive
+                    *cur = nullptr;
                 }
                 else if (op.name == "start" || op.name == "drop")
                 {
